@@ -452,9 +452,78 @@ fn capsite(a: &[String]) -> ! {
     std::process::exit(0)
 }
 
+fn md5(msg: &[u8]) -> [u8; 16] {
+    let s: [u32; 64] = [7, 12, 17, 22, 7, 12, 17, 22, 7, 12, 17, 22, 7, 12, 17, 22, 5, 9, 14, 20, 5, 9, 14, 20, 5, 9, 14, 20, 5, 9, 14, 20, 4, 11, 16, 23, 4, 11, 16, 23,
+        4, 11, 16, 23, 4, 11, 16, 23, 6, 10, 15, 21, 6, 10, 15, 21, 6, 10, 15, 21, 6, 10, 15, 21];
+    let k: Vec<u32> = (0..64).map(|i| ((i as f64 + 1.0).sin().abs() * 4294967296.0) as u32).collect();
+    let (mut a0, mut b0, mut c0, mut d0) = (0x67452301u32, 0xefcdab89u32, 0x98badcfeu32, 0x10325476u32);
+    let mut m = msg.to_vec();
+    m.push(0x80);
+    while m.len() % 64 != 56 {
+        m.push(0);
+    }
+    m.extend_from_slice(&((msg.len() as u64) * 8).to_le_bytes());
+    for chunk in m.chunks(64) {
+        let w: Vec<u32> = (0..16).map(|i| u32::from_le_bytes([chunk[4 * i], chunk[4 * i + 1], chunk[4 * i + 2], chunk[4 * i + 3]])).collect();
+        let (mut a, mut b, mut c, mut d) = (a0, b0, c0, d0);
+        for i in 0..64 {
+            let (mut f, g);
+            if i < 16 {
+                f = (b & c) | (!b & d);
+                g = i;
+            } else if i < 32 {
+                f = (d & b) | (!d & c);
+                g = (5 * i + 1) % 16;
+            } else if i < 48 {
+                f = b ^ c ^ d;
+                g = (3 * i + 5) % 16;
+            } else {
+                f = c ^ (b | !d);
+                g = (7 * i) % 16;
+            }
+            f = f.wrapping_add(a).wrapping_add(k[i]).wrapping_add(w[g]);
+            a = d;
+            d = c;
+            c = b;
+            b = b.wrapping_add(f.rotate_left(s[i]));
+        }
+        a0 = a0.wrapping_add(a);
+        b0 = b0.wrapping_add(b);
+        c0 = c0.wrapping_add(c);
+        d0 = d0.wrapping_add(d);
+    }
+    let mut out = [0u8; 16];
+    out[0..4].copy_from_slice(&a0.to_le_bytes());
+    out[4..8].copy_from_slice(&b0.to_le_bytes());
+    out[8..12].copy_from_slice(&c0.to_le_bytes());
+    out[12..16].copy_from_slice(&d0.to_le_bytes());
+    out
+}
+
+/// `digest <challenge>`: edp_client::digest::compute_digest against an independent MD5 of cookie ++ decimal(challenge)
+fn digest(a: &[String]) -> ! {
+    let ch: u32 = a[2].parse().unwrap();
+    let cookie = "secret-cookie";
+    let got = edp_client::digest::compute_digest(ch, cookie);
+    let want = md5(format!("{}{}", cookie, ch).as_bytes());
+    if got != want {
+        eprintln!("REPLAY: compute_digest({}, cookie) = {:02x?}, MD5(cookie ++ \"{}\") = {:02x?}", ch, got, ch, want);
+        std::process::exit(101);
+    }
+    println!("REPLAY: compute_digest({}) agrees with an independent MD5", ch);
+    std::process::exit(0)
+}
+
 fn main() {
     let a: Vec<String> = std::env::args().collect();
     let kind = a[1].as_str();
+    if kind == "digest" {
+        digest(&a);
+    }
+    if !["allocate", "make_reference", "wrapper", "ctl", "conv", "frag", "fragexp", "props", "disthdr", "disthdr_tuple", "capsite"].contains(&kind) {
+        eprintln!("REPLAY: unknown mode {}", kind);
+        std::process::exit(2);
+    }
     if kind == "capsite" {
         capsite(&a);
     }
